@@ -25,6 +25,7 @@ func checkC16(r *core.Run) {
 	r.Explanation = "C16 (structural clauses only): identifiers — the order and shard counters are written only by their Append function (and genesis), which stores the record under the counter value it read, returns that value and writes back exactly value+1; in-flight exclusion — the status/commit of an existing model is rewritten only when its status is Complete, and Store reaches that point only when the model's latest order is Completed; base version — the comparison between the model's latest commit and the base named by the request must be an equality. History shape over interleavings is not decided."
 	r.Rule("CAP-count: order:{Order/count/, Shard/count/} written only inside SetOrderCount/SetShardCount, called only from AppendOrder/AppendShard and order.InitGenesis")
 	r.Rule("T-count: Append*: id := GetCount(); record stored under key(id) with Id := id; SetCount(id + 1); return id")
+	r.Rule("G-inflight(renew): in Renew the order renewal and the metadata update are reached only for a model whose Status is MetaComplete (a renewal must not complete a model that has an update in flight)")
 	r.Rule("G-inflight: UpdateMetaStatusAndCommit writes <= metadata.Status == MetaComplete; in Store the call <= lastOrder.Status == OrderCompleted with lastOrder = GetOrder(meta.OrderId)")
 	r.Rule("T-forcepush: the shrinking reslice of Metadata.Commits is never inside a loop (a force-push replaces only the latest entry)")
 	r.Rule("T-persist: a field assigned on a local copy of a stored Metadata record is persisted on every success path of that function (the in-flight marker Status/Commit/OrderId set by UpdateMetaStatusAndCommit must reach the store)")
@@ -166,6 +167,13 @@ func checkC16(r *core.Run) {
 		cl("model-not-already-being-updated", guard.Eq("*"+fGetMeta+"(#2.DataId)#0.Status", metaComplete)),
 	}, 1)
 	meta := fGetMeta + "(" + msg + ".Proposal.DataId)#0"
+	// Renew: the renewal settles into the model's metadata (UpdateMeta sets Status := MetaComplete and OrderId := the
+	// renewal), which would erase the in-flight marker of an update that is under way: it must be refused while the
+	// model is not complete
+	renewMeta := fGetMeta + "(elem(" + msg + ".Proposal.Data))#0"
+	evalGuard(r, "G-inflight", "sao/keeper.msgServer.Renew", effSel{Calls: []string{"order/keeper.Keeper.RenewOrder", "model/keeper.Keeper.UpdateMeta"}}, []clause{
+		cl("model-not-being-updated", guard.Eq("*"+renewMeta+".Status", metaComplete)),
+	}, 1)
 	evalGuard(r, "G-inflight", "sao/keeper.msgServer.Store", effSel{Calls: []string{"model/keeper.Keeper.UpdateMetaStatusAndCommit"}}, []clause{
 		cl("latest-order-of-the-model-is-completed", guard.Eq(fGetOrder+"("+meta+".OrderId)#0.Status", orderCompleted)),
 		cl("latest-order-exists", guard.True(fGetOrder+"("+meta+".OrderId)#1")),
